@@ -164,6 +164,22 @@ func (ch c10) Run(c *core.Ctx) {
 	defer envTLS.Stop()
 	envPlain := hs.Start(hs.Parse, wire.MessageBufferSize(L))
 	envAuth := hs.Start(hs.Parse, wire.MessageBufferSize(L), wire.SessionAuthStrategy(wire.ClearTextPassword(c10validator)))
+	// another server of the same process with a much larger limit: connections to it come and go between
+	// the cases (whatever it leaves behind, the limit of a server is that server's own)
+	envBig := hs.Start(hs.Parse, wire.MessageBufferSize(2*eff+1000)) // (its own buffers stay under the allocation bound of this process)
+	defer envBig.Stop()
+	visitBig := func() {
+		for n := 0; n < 3; n++ {
+			b := hs.NewClient(envBig.Dial(&hs.Sess{Default: func(string) *hs.Prog {
+				return &hs.Prog{Stmts: []*hs.Stmt{{ID: "big", Ops: []hs.Op{{K: "complete", Tag: "OK"}}}}}
+			}}))
+			if b.StartupOK("u") == nil {
+				b.Step(pg.Query("on the server with the larger limit " + strings.Repeat("x", eff+eff/2)))
+			}
+			b.Finish()
+		}
+		c.Count("visits_to_a_server_with_a_larger_limit", 1)
+	}
 	defer envPlain.Stop()
 	defer envAuth.Stop()
 	ran := 0
@@ -186,6 +202,9 @@ func (ch c10) Run(c *core.Ctx) {
 		}
 		if !c.Begin(i) || c.NViol() >= 10 {
 			continue
+		}
+		if i%7 == 0 && eff < 1<<22 {
+			visitBig()
 		}
 		if k.Pos == "tls" {
 			ch.runTLS(c, envTLS, k)
